@@ -4,7 +4,8 @@ from vlib.combine import run_parts
 
 def run(ck):
     return run_parts(ck, 'C14', 'other', 'exploration',
-                     'P: SetType.contains/add/remove on a ghost sequence of symbolic length (sets of any size), modular over sorted()/filter(); '
+                     'P: SetType.contains/add/remove and MapType.get/contains/update on a ghost sequence of symbolic length (collections of any size), '
+                     'comprehensions evaluated on a generic element, modular over sorted()/filter()/next(); '
                      'S: set/map operations on collections of size 0..4 (6) with symbolic int keys: well-formedness preserved, whole-view '
                      'postconditions, frame; literal validation accepts exactly strictly increasing keys; R: instruction-level histories '
                      'against a reference sorted dict over every comparable key type shape, and probes on collections of 5..65 elements')
